@@ -51,6 +51,7 @@ def run_job(job, rec):
         else:
             nd = npar
         d = int(rng.choice([1, 1, 2]))
+        far = bool(rng.random() < 0.15)   # parameter positions far from the origin; only used with kernels without a change-point (decided below)
         pos = G.random_points(rng, npar, d)
         A = rng.normal(size=(nd, npar)) * 10.0 ** rng.uniform(-1, 1)
         if rng.random() < 0.4:  # smoothing-type forward model
@@ -63,8 +64,12 @@ def run_job(job, rec):
         if R.has_hn(spec):
             spec = ("SE",)
         y_scale = 10.0 ** rng.uniform(-2, 2)
+        far = far and G.count_cp_kernels(spec) == 0
+        if far:
+            pos = G.random_points(rng, npar, d, far=True)
+            rec.count("cases:positions_far_from_origin")
         theta_c = G.random_theta(spec, rng, pos, y_scale)
-        mean_name = str(rng.choice(G.MEANS))
+        mean_name = "Constant" if far else str(rng.choice(G.MEANS))   # (a trend about a centroid near 1e7 carries the centroid's rounding)
         theta_m = G.random_mean_theta(mean_name, rng, pos, y_scale)
         theta = np.concatenate([theta_m, theta_c])
         truth = y_scale * np.sin(3 * (pos - pos.mean(0)) @ (rng.normal(size=d) / np.where(np.ptp(pos, 0) > 0, np.ptp(pos, 0), 1)))
@@ -123,6 +128,9 @@ def run_job(job, rec):
         ref_cov = K - KAt @ np.linalg.solve(J, KAt.T)
         tol_mean = fac * (np.abs(m).max() + (np.abs(KAt) @ np.abs(sol)).max() + 1e-300)
         tol_cov = fac * np.abs(K).max()
+        # the full path forms the mean as (posterior covariance) @ u: an entry-wise error tol_cov of the covariance is multiplied by |u|_1
+        u_vec = A.T @ ((y - A @ m) / y_err**2)
+        tol_mean_full = tol_mean + tol_cov * float(np.abs(u_vec).sum())
 
         out = guarded(inv.calculate_posterior, theta)
         if isinstance(out, Raised):
@@ -131,8 +139,8 @@ def run_job(job, rec):
         pm, pc = np.asarray(out[0], float), np.asarray(out[1], float)
         if not rec.check(pm.shape == (npar,) and pc.shape == (npar, npar), "posterior-shape", f"shapes {pm.shape}, {pc.shape}", rec.context):
             continue
-        rec.check(bool(np.abs(pm - ref_mean).max() <= tol_mean), "posterior-mean",
-                  lambda: f"{desc}/{mean_name} [{shape} {nd}x{npar}]: posterior mean differs from the closed form by {np.abs(pm - ref_mean).max():.3e} (tol {tol_mean:.2e}, cond {cond:.1e})", rec.context)
+        rec.check(bool(np.abs(pm - ref_mean).max() <= tol_mean_full), "posterior-mean",
+                  lambda: f"{desc}/{mean_name} [{shape} {nd}x{npar}]: posterior mean differs from the closed form by {np.abs(pm - ref_mean).max():.3e} (tol {tol_mean_full:.2e}, cond {cond:.1e})", rec.context)
         rec.check(bool(np.abs(pc - ref_cov).max() <= tol_cov), "posterior-covariance",
                   lambda: f"{desc} [{shape} {nd}x{npar}]: posterior covariance differs from the closed form by {np.abs(pc - ref_cov).max():.3e} (tol {tol_cov:.2e}, cond {cond:.1e})", rec.context)
         rec.check(bool(np.abs(pc - pc.T).max() <= tol_cov), "posterior-asymmetric",
@@ -144,8 +152,12 @@ def run_job(job, rec):
         rec.check(lam2.min() >= -tol_cov * npar, "posterior-larger-than-prior",
                   lambda: f"prior minus posterior covariance has eigenvalue {lam2.min():.3e}", rec.context)
         mo = guarded(inv.calculate_posterior_mean, theta)
-        rec.check((not isinstance(mo, Raised)) and np.shape(mo) == (npar,) and bool(np.abs(np.asarray(mo) - pm).max() <= tol_mean),
+        rec.check((not isinstance(mo, Raised)) and np.shape(mo) == (npar,) and bool(np.abs(np.asarray(mo) - pm).max() <= tol_mean_full),
                   "mean-only-differs", lambda: f"calculate_posterior_mean differs from the full path: {mo!r}", rec.context)
+        # the mean-only path solves for the mean directly: judged against the closed form at the tighter tolerance
+        rec.check((not isinstance(mo, Raised)) and np.shape(mo) == (npar,) and bool(np.abs(np.asarray(mo) - ref_mean).max() <= tol_mean + 1e-3 * tol_mean_full),
+                  "posterior-mean", lambda: f"{desc}/{mean_name} [{shape} {nd}x{npar}]: calculate_posterior_mean differs from the closed form by "
+                                            f"{np.abs(np.asarray(mo) - ref_mean).max():.3e} (tol {tol_mean:.2e}, cond {cond:.1e})", rec.context)
 
         # ---- history: the same theta array modified in place between calls
         if c % 2 == 0:
